@@ -2,6 +2,7 @@ package main
 
 import (
 	"fmt"
+	"strings"
 	"go/token"
 	"go/types"
 	"strconv"
@@ -32,15 +33,14 @@ func (fr *frame) safety(kind string, goal string, reach string, pos token.Pos, s
 // frameCheck: a write to heap array arrName at ref must be permitted by the modifies clause.
 func (fr *frame) frameCheck(st *State, arrName string, ref Term, reach string, pos token.Pos) {
 	fc := fr.fc
+	for _, sl := range fc.strict[arrName] {
+		o := fc.oblig("frame", "nowrite."+arrName, not(eq(ref.S, sl.ref.S)), reach, pos, sl.props)
+		o.Src = "the location " + sl.src + " is never written (not even temporarily)"
+	}
 	if fc.c == nil || fc.modEvery || fc.modAll[arrName] {
 		return
 	}
-	al := fc.heapGet(fr.old, "Alloc", arr(SInt, SBool))
-	alts := []string{not(sel(al.S, ref.S))}
-	for _, m := range fc.modset[arrName] {
-		alts = append(alts, eq(ref.S, m.S))
-	}
-	o := fc.oblig("frame", "frame."+arrName, or(alts...), reach, pos, nil)
+	o := fc.oblig("frame", "frame."+arrName, fc.allowed(fr.old, arrName, ref.S), reach, pos, nil)
 	o.Src = "write to " + arrName + " must be covered by the modifies clause"
 }
 
@@ -50,10 +50,18 @@ func (fr *frame) frameGoal(arrName string, ref Term) string {
 	if fc.c == nil || fc.modEvery || fc.modAll[arrName] {
 		return ""
 	}
-	al := fc.heapGet(fr.old, "Alloc", arr(SInt, SBool))
-	alts := []string{not(sel(al.S, ref.S))}
+	return fc.allowed(fr.old, arrName, ref.S)
+}
+
+// allowed: the write-permission predicate of the function under verification for heap array arrName at ref r.
+func (fc *FnCtx) allowed(old *State, arrName, r string) string {
+	al := fc.heapGet(old, "Alloc", arr(SInt, SBool))
+	alts := []string{not(sel(al.S, r))}
 	for _, m := range fc.modset[arrName] {
-		alts = append(alts, eq(ref.S, m.S))
+		alts = append(alts, eq(r, m.S))
+	}
+	for _, p := range fc.modpred[arrName] {
+		alts = append(alts, strings.ReplaceAll(p, "%r", r))
 	}
 	return or(alts...)
 }
@@ -92,7 +100,11 @@ func (fr *frame) loadRef(st *State, ref Term, elemT types.Type) Val {
 	v := Term{sel(a.S, ref.S), sn}
 	if sn == SInt && isRefType(elemT) {
 		v = fc.define("ld", v)
-		fc.assumeAllocated(st, v)
+		fc.assumeAllocatedFrom(st, v, a)
+	}
+	if isSlc(sn) {
+		v = fc.define("ld", v)
+		fc.fact(fmt.Sprintf("(and (<= 0 (soff %s)) (<= 0 (slen %s)))", v.S, v.S))
 	}
 	return v
 }
@@ -152,6 +164,16 @@ func (fr *frame) exec(in ssa.Instruction, st *State, reach string) {
 				fc.heapSet(st, n, Term{store(a.S, r.S, e.zero(si.sorts[k], f.Type()).S), a.Sort})
 			}
 			_ = sn
+			// mutex fields start unlocked
+			if stt, ok := elemT.Underlying().(*types.Struct); ok {
+				for k := 0; k < stt.NumFields(); k++ {
+					if isSyncType(stt.Field(k).Type()) {
+						n := "LK$" + sanitize(shortType(elemT)) + "$" + stt.Field(k).Name()
+						a := fc.heapGet(st, n, arr(SInt, SInt))
+						fc.heapSet(st, n, Term{store(a.S, r.S, "0"), a.Sort})
+					}
+				}
+			}
 			// declared ghost fields start at their zero value
 			for _, g := range e.specs.Ghost {
 				if g.Struct != typeKey(elemT) {
@@ -237,15 +259,14 @@ func (fr *frame) exec(in ssa.Instruction, st *State, reach string) {
 			return
 		}
 		mt := i.X.Type().Underlying().(*types.Map)
-		dn, vn, ks, vs := fc.mapArrs(mt)
+		dn, vn, ks, vs := fc.mapArrs(mt, e.regionOf(i.X))
 		dom := fc.heapGet(st, dn, arr(SInt, arr(ks, SBool)))
 		val := fc.heapGet(st, vn, arr(SInt, arr(ks, vs)))
 		has := Term{sel(sel(dom.S, x.S), idx.S), SBool}
-		// reading a nil map is allowed in Go: treated as empty (dom of ref 0 is assumed empty)
-		fc.fact(fmt.Sprintf("(forall ((k %s)) (not (select (select %s 0) k)))", ks, dom.S))
+		// reading a nil map is allowed in Go: the nil map is empty (see nilMapEmpty)
 		v := fc.define(i.Name(), Term{fmt.Sprintf("(ite %s %s %s)", has.S, sel(sel(val.S, x.S), idx.S), e.zero(vs, mt.Elem()).S), vs})
 		if vs == SInt && isRefType(mt.Elem()) {
-			fc.assumeAllocated(st, v)
+			fc.assumeAllocatedFrom(st, v, val)
 		}
 		if i.CommaOk {
 			fr.vals[i] = &Tuple{[]Val{v, fc.define(i.Name()+"_ok", has)}}
@@ -265,19 +286,30 @@ func (fr *frame) exec(in ssa.Instruction, st *State, reach string) {
 		k := fr.term(i.Key)
 		v := fr.term(i.Value)
 		mt := i.Map.Type().Underlying().(*types.Map)
-		dn, vn, ks, vs := fc.mapArrs(mt)
+		dn, vn, ks, vs := fc.mapArrs(mt, e.regionOf(i.Map))
 		fr.safety("nilmap", not(eq(m.S, "0")), reach, i.Pos(), "assignment to entry in nil map")
+		fc.factIf(reach, not(eq(m.S, "0"))) // checked just above
 		dom := fc.heapGet(st, dn, arr(SInt, arr(ks, SBool)))
 		val := fc.heapGet(st, vn, arr(SInt, arr(ks, vs)))
 		fr.frameCheck(st, dn, m, reach, i.Pos())
 		fc.heapSet(st, dn, Term{store(dom.S, m.S, store(sel(dom.S, m.S), k.S, "true")), dom.Sort})
 		fc.heapSet(st, vn, Term{store(val.S, m.S, store(sel(val.S, m.S), k.S, v.S)), val.Sort})
+		if _, isMap := mt.Elem().Underlying().(*types.Map); isMap && ks == SString {
+			// built-in ghost event: a map stored as a value gets its parent link (once)
+			mp := fc.heapGet(st, "MP", arr(SInt, SInt))
+			mpk := fc.heapGet(st, "MPK$String", arr(SInt, SString))
+			unowned := eq(sel(mp.S, v.S), "0")
+			fc.heapSet(st, "MP", Term{store(mp.S, v.S, fmt.Sprintf("(ite %s %s %s)", unowned, m.S, sel(mp.S, v.S))), mp.Sort})
+			fc.heapSet(st, "MPK$String", Term{store(mpk.S, v.S, fmt.Sprintf("(ite %s %s %s)", unowned, k.S, sel(mpk.S, v.S))), mpk.Sort})
+		}
 	case *ssa.MakeMap:
 		mt := i.Type().Underlying().(*types.Map)
-		dn, _, ks, _ := fc.mapArrs(mt)
+		dn, _, ks, _ := fc.mapArrs(mt, e.regionOf(i))
 		r := fc.newRef(st, "map")
 		dom := fc.heapGet(st, dn, arr(SInt, arr(ks, SBool)))
 		fc.heapSet(st, dn, Term{store(dom.S, r.S, fmt.Sprintf("((as const %s) false)", arr(ks, SBool))), dom.Sort})
+		mp := fc.heapGet(st, "MP", arr(SInt, SInt))
+		fc.heapSet(st, "MP", Term{store(mp.S, r.S, "0"), mp.Sort})
 		fr.vals[i] = r
 	case *ssa.MakeSlice:
 		ln := fr.term(i.Len)
@@ -378,7 +410,7 @@ func (fr *frame) exec(in ssa.Instruction, st *State, reach string) {
 	case *ssa.Range:
 		x := fr.term(i.X)
 		if mt, ok := i.X.Type().Underlying().(*types.Map); ok {
-			it := &MapIter{Map: x, MapT: mt, Vis: "VIS$" + i.Name()}
+			it := &MapIter{Map: x, MapT: mt, Vis: "VIS$" + i.Name(), Region: e.regionOf(i.X)}
 			ks := e.sortOf(mt.Key())
 			st.heap[it.Vis] = Term{fmt.Sprintf("((as const %s) false)", arr(ks, SBool)), arr(ks, SBool)}
 			fr.vals[i] = it
@@ -542,7 +574,7 @@ func (fr *frame) execUnOp(i *ssa.UnOp, st *State, reach string) {
 			v := Term{sel(a.S, pt.Base.S), pt.Sort}
 			if pt.Sort == SInt && pt.FieldT != nil && isRefType(pt.FieldT) {
 				v = fc.define(i.Name(), v)
-				fc.assumeAllocated(st, v)
+				fc.assumeAllocatedFrom(st, v, a)
 			}
 			if isSlc(pt.Sort) {
 				v = fc.define(i.Name(), v)
@@ -552,7 +584,12 @@ func (fr *frame) execUnOp(i *ssa.UnOp, st *State, reach string) {
 		case *PtrArrElem:
 			fr.vals[i] = pt.Cell.Elems[pt.Idx]
 		case *PtrSliceElem:
-			fr.vals[i] = Term{fmt.Sprintf("(select (sarr %s) (+ (soff %s) %s))", pt.Slice.S, pt.Slice.S, pt.Idx.S), sortArgs(pt.Slice.Sort)[0]}
+			v := fc.slcAt(pt.Slice, pt.Idx.S)
+			if v.Sort == SInt && pt.ElemT != nil && isRefType(pt.ElemT) {
+				v = fc.define(i.Name(), v)
+				fc.assumeAllocated(st, v)
+			}
+			fr.vals[i] = v
 		case Term:
 			elemT := ptrElem(i.X.Type())
 			if g, isGlobal := i.X.(*ssa.Global); isGlobal {
@@ -648,19 +685,18 @@ func (fr *frame) execNext(i *ssa.Next, st *State, reach string) {
 		st.heap[it.Pos] = fc.define("spos", Term{fmt.Sprintf("(ite %s (+ %s %s) %s)", okT.S, pos.S, w, pos.S), SInt})
 		return
 	}
-	dn, vn, ks, vs := fc.mapArrs(it.MapT)
+	dn, vn, ks, vs := fc.mapArrs(it.MapT, it.Region)
 	dom := fc.heapGet(st, dn, arr(SInt, arr(ks, SBool)))
 	val := fc.heapGet(st, vn, arr(SInt, arr(ks, vs)))
 	vis := fc.heapGet(st, it.Vis, arr(ks, SBool))
 	okT := fc.fresh("next_ok", SBool)
 	k := fc.fresh("next_k", ks)
 	d := sel(dom.S, it.Map.S)
-	fc.fact(fmt.Sprintf("(forall ((k %s)) (not (select (select %s 0) k)))", ks, dom.S))
 	fc.fact(fmt.Sprintf("(=> %s (and (select %s %s) (not (select %s %s))))", okT.S, d, k.S, vis.S, k.S))
 	fc.fact(fmt.Sprintf("(=> (not %s) (forall ((kk %s)) (! (=> (select %s kk) (select %s kk)) :pattern ((select %s kk)))))", okT.S, ks, d, vis.S, d))
 	v := fc.define("next_v", Term{sel(sel(val.S, it.Map.S), k.S), vs})
 	if vs == SInt && isRefType(it.MapT.Elem()) {
-		fc.assumeAllocated(st, v)
+		fc.assumeAllocatedFrom(st, v, val)
 	}
 	st.heap[it.Vis] = fc.define("vis", Term{fmt.Sprintf("(ite %s %s %s)", okT.S, store(vis.S, k.S, "true"), vis.S), vis.Sort})
 	fr.vals[i] = &Tuple{[]Val{okT, k, v}}
@@ -852,3 +888,16 @@ func (fr *frame) arith(i *ssa.BinOp, t string, reach string) Val {
 }
 
 var _ = strconv.Itoa
+
+// slcAt: element j of a slice value, through a declared function so that quantifier patterns over
+// slice elements contain no arithmetic.
+func (fc *FnCtx) slcAt(s Term, j string) Term {
+	es := sortArgs(s.Sort)[0]
+	name := "slcat$" + sanitize(es)
+	if !fc.declSet[name] {
+		fc.declSet[name] = true
+		fc.decls = append(fc.decls, fmt.Sprintf("(declare-fun %s (%s Int) %s)", name, s.Sort, es))
+		fc.decls = append(fc.decls, fmt.Sprintf("(assert (forall ((s %s) (j Int)) (! (= (%s s j) (select (sarr s) (+ (soff s) j))) :pattern ((%s s j)))))", s.Sort, name, name))
+	}
+	return Term{fmt.Sprintf("(%s %s %s)", name, s.S, j), es}
+}
